@@ -127,6 +127,30 @@ PROPS["C19"] = {
     "explanation": "Cypher statement data independence + well-formedness", "assumptions": ["neo4j driver replaced by a recording stand-in"],
 }
 
+TOPO_NOTE = (" Bounded symbolic execution from enumerated skeleton slices (built through the real API, <= 37 graph nodes): the solver covers all argument "
+             "values and aliasing patterns of ONE step per (skeleton, operation); histories are not enumerated beyond the skeletons. The per-type interface-count "
+             "rules of the published rule file are validation-time constraints (C10) and are not demanded of intermediate states.")
+PROPS["C07"] = {
+    "modules": ["harness.c07"], "level": "model_checking", "design_ref": "DESIGN.md 2/C07-C09",
+    "level_text": "For every (skeleton, building operation) the step runs with symbolic arguments on the real topology classes; afterwards the structural published "
+                  "rules transliterated to Python, containment (one owner per component/interface/sub-interface, one peer per service port), name uniqueness "
+                  "per scope and the exactness/read-only-ness of the views are checked on the resulting model, whether the step returned or raised.",
+    "level_note": XH_NOTE + TOPO_NOTE, "explanation": "topology invariants after one symbolic step", "assumptions": [],
+}
+PROPS["C08"] = {
+    "modules": ["harness.c08"], "level": "model_checking", "design_ref": "DESIGN.md 2/C07-C09",
+    "level_text": "For every (skeleton, removal/disconnect operation) with symbolic arguments the post-snapshot must equal the pre-snapshot minus the ownership "
+                  "closure predicted by an independent model (owned sub-tree, its 2-ended links, the service-side ports peering with it), and the handle used "
+                  "must report the same interfaces as a fresh lookup.",
+    "level_note": XH_NOTE + TOPO_NOTE, "explanation": "exact removal vs ownership-closure model", "assumptions": [],
+}
+PROPS["C09"] = {
+    "modules": ["harness.c09"], "level": "model_checking", "design_ref": "DESIGN.md 2/C07-C09",
+    "level_text": "For every (skeleton, operation) with symbolic arguments (duplicate names, unknown model as an unbounded symbolic string, already-connected or "
+                  "disallowed interfaces at any position, invalid values): if the call raises, the canonical model snapshot equals the pre-snapshot.",
+    "level_note": XH_NOTE + TOPO_NOTE, "explanation": "atomic failure of topology operations", "assumptions": [],
+}
+
 NOT_APPLICABLE = {
     "C01": "every value on the GraphML/JSON text path crosses expat/lxml/json C code and temp files, where a symbolic value is "
            "concretised; what remains would be concrete sampling, i.e. a different technique (store-level half is decided under C04/C20)",
